@@ -1,6 +1,7 @@
 package props
 
 import (
+	"regexp"
 	"fmt"
 	"go/ast"
 	"go/constant"
@@ -60,12 +61,26 @@ func checkTumble(c *core.Ctx) {
 	c.Decide(msOK, "TUMBLE", key+"/metadata", rcs[0].Call.Pos(), 1, "watermarks pass unchanged", "tumble must hand its metaSend to the source unchanged (watermarks pass through)")
 	// a window length that is not positive never reaches the source: time.Truncate(d) returns its receiver for d <= 0,
 	// so window_end = time + length <= time and no record lies inside its own window
+	// names are taken from the code: the receiver, the callback's record parameter, the variables holding the
+	// evaluated window length and offset
+	recvName, recName := "t", "record"
+	if fn.Decl.Recv != nil && len(fn.Decl.Recv.List) == 1 && len(fn.Decl.Recv.List[0].Names) == 1 {
+		recvName = fn.Decl.Recv.List[0].Names[0].Name
+	}
+	if pl := rcs[0].Produce.Type.Params.List; len(pl) == 2 && len(pl[1].Names) == 1 {
+		recName = pl[1].Names[0].Name
+	}
+	lenVar, offVar := evaluatedFieldVar(fn, recvName, "windowLength"), evaluatedFieldVar(fn, recvName, "offset")
+	if lenVar == "" || offVar == "" {
+		c.Unknown("TUMBLE", key+"/window", fn.Decl.Pos(), "the window length and the offset are not evaluated into variables (x, err := t.windowLength.Evaluate(ctx))")
+		return
+	}
 	{
-		d := "windowLength.Duration"
+		d := lenVar + ".Duration"
 		gi := newInterp(p, fn)
 		gi.ErrorsNil = true
 		gi.Hooks.Cond = func(st *absint.State, atom string) (bool, bool) {
-			atom = strings.ReplaceAll(atom, "execution.Expression.Evaluate(t.windowLength,ctx).0.Duration", d)
+			atom = regexp.MustCompile(`execution\.Expression\.Evaluate\(`+regexp.QuoteMeta(recvName)+`\.windowLength,\w+\)\.0\.Duration`).ReplaceAllString(atom, d)
 			switch atom {
 			case "(0 == " + d + ")", "(" + d + " == 0)", "(" + d + " <= 0)", "(0 >= " + d + ")", "(" + d + " < 1)", "(1 > " + d + ")":
 				return true, true
@@ -111,17 +126,17 @@ func checkTumble(c *core.Ctx) {
 		return
 	}
 	bad := ""
-	T := "record.Values[t.timeFieldIndex].Time"
+	T := recName + ".Values[" + recvName + ".timeFieldIndex].Time"
 	for _, o := range outs {
 		var appended []absint.Val
 		produced := 0
 		for _, e := range o.Events {
-			if strings.HasPrefix(e.Name, "append record.Values") {
+			if strings.HasPrefix(e.Name, "append "+recName+".Values") {
 				appended = e.Args
 			}
 			if e.Name == "PRODUCE" {
 				produced++
-				if len(e.Args) != 2 || e.Args[1].Canon() != "record" {
+				if len(e.Args) != 2 || e.Args[1].Canon() != recName {
 					bad = "a record other than the (extended) input record is produced"
 				}
 			}
@@ -139,15 +154,15 @@ func checkTumble(c *core.Ctx) {
 			continue
 		}
 		okStart := false
-		for _, neg := range []string{"(-1 * offset.Duration)", "(offset.Duration * -1)", "(-offset.Duration)"} {
-			if ws.Canon() == "Add(Truncate(Add("+T+","+neg+"),windowLength.Duration),offset.Duration)" {
+		for _, neg := range []string{"(-1 * " + offVar + ".Duration)", "(" + offVar + ".Duration * -1)", "(-" + offVar + ".Duration)"} {
+			if ws.Canon() == "Add(Truncate(Add("+T+","+neg+"),"+lenVar+".Duration),"+offVar+".Duration)" {
 				okStart = true
 			}
 		}
 		if !okStart {
 			bad = "window_start must be truncate(time − offset, window length) + offset; it is " + ws.Canon()
 		}
-		if we.Canon() != "Add("+ws.Canon()+",windowLength.Duration)" {
+		if we.Canon() != "Add("+ws.Canon()+","+lenVar+".Duration)" {
 			bad = "window_end must be window_start + window length; it is " + we.Canon()
 		}
 	}
